@@ -1060,7 +1060,8 @@ impl Gen {
                         // the store comes back with another set of extra tables
                         let n = self.rng.below(self.p.max_extra as u64 + 1) as u8;
                         self.extra_tables = n;
-                        ops.push(Op::Tables(n));
+                        // (now and then listed in reverse order)
+                        ops.push(Op::Tables(if n >= 2 && self.rng.chance(1, 3) { n + 10 } else { n }));
                     } else {
                         ops.push(Op::Reopen(ReopenKind::Close));
                     }
